@@ -210,6 +210,54 @@ def r20_8(chk, P, rule='R20.8'):
     return n
 
 
+def r20_9(chk, P):
+    chk.rule('R20.9', 'ov_halfrate reports success only after every link was given the flag: each literal success return of ov_halfrate '
+             'lies behind the completed loop that applies vorbis_synthesis_halfrate(vf->vi+i, flag) to every link (the loop header '
+             'dominates the return, the return is outside the loop, and no other exit of the loop can reach it).  The roll-back of '
+             'a refused request is the recursive call ov_halfrate(vf,0): a shortcut that returns before the loop -- say, because the '
+             'current link already has the requested setting -- leaves the links switched so far at half rate')
+    F = P.need('ov_halfrate')
+    fparam = F.params[1]['id'] if len(F.params) > 1 else None
+    setcalls = [c for c in F.calls('vorbis_synthesis_halfrate')
+                if len(F.ex[c]['c']) > 1 and F.ex[F.strip_casts(F.ex[c]['c'][1])].get('decl', {}).get('id') == fparam]
+    chk.require(setcalls, 'ov_halfrate: no vorbis_synthesis_halfrate(.., flag) call found')
+    loops = cfg.loops(F)
+    hs = [h for h, body in loops.items() if any(F.pos[c][0] in body for c in setcalls)]
+    chk.require(hs, 'ov_halfrate: the flag is not applied in a loop over the links')
+    h = min(hs, key=lambda x: len(loops[x]))
+    body = loops[h]
+    # the loop covers all links: bound is vf->links and the induction variable starts at 0 (checked by R20.3/R09.1 already); here: exits
+    dom = cfg.dominators(F)
+    succ_rets = [r for r in cfg.returns(F) if F.ex[r].get('c') and common.const_val(F, F.ex[r]['c'][0]) == 0]
+    chk.require(succ_rets, 'ov_halfrate: no literal success return')
+
+    def reach(b0, target):
+        seen, st = set(), [b0]
+        while st:
+            b = st.pop()
+            if b == target:
+                return True
+            if b in seen:
+                continue
+            seen.add(b)
+            st += [s_ for s_ in F.blocks[b]['succs'] if s_ is not None]
+        return False
+    for i, r in enumerate(sorted(succ_rets, key=lambda x: F.ex[x]['loc'])):
+        rb = F.pos[r][0]
+        ok = h in dom.get(rb, ()) and rb not in body
+        why = 'behind the completed all-links loop'
+        if not ok:
+            why = 'reachable without passing the loop that applies the flag to every link'
+        else:
+            for b in body:
+                for s_ in F.blocks[b]['succs']:
+                    if s_ is not None and s_ not in body and b != h and reach(s_, rb):
+                        ok = False
+                        why = f'reachable from an exit of the loop other than its completion (line {F.loc(F.blocks[b]["elems"][-1]) if F.blocks[b]["elems"] else "?"})'
+        chk.ob('R20.9', F.name, f'success-only-after-all-links#{i}', ok, F.where(r), f'`{F.s(r)}` is {why}')
+    return len(succ_rets)
+
+
 def run(chk, P):
     E = getattr(P, '_effects', None) or k3.Effects(P)
     P._effects = E
@@ -231,6 +279,8 @@ def run(chk, P):
     chk.floor('R20.7', 1)
     r20_8(chk, P)
     chk.floor('R20.8', 1)
+    r20_9(chk, P)
+    chk.floor('R20.9', 1)
     chk.trusted += ['clang 14 front end', 'call graph', 'K4 intervals with symbolic bounds']
     return ('Units-of-measure typing separates stream samples from decoder-output samples and requires the half-rate shift at '
             'every crossing; path and order rules decide that a refused toggle changes nothing, rolls back all links, and that '
